@@ -61,6 +61,11 @@ type TumblingWindow struct {
 	size time.Duration
 	// mu protects concurrent access to window data
 	mu sync.RWMutex
+	// deliverMu orders the hand-over of results. The first delivery of a window and a late update
+	// of it are built under mu but handed over after mu is released; deliverMu is taken before mu is
+	// released and held until the hand-over is done, so results leave in the order they were built
+	// (a late update can no longer overtake the delivery it updates). Lock order: mu, then deliverMu.
+	deliverMu sync.Mutex
 	// data stores collected data within the window
 	data []types.Row
 	// outputChan is a channel for sending data when window triggers
@@ -538,12 +543,14 @@ func (tw *TumblingWindow) checkAndTriggerWindows(watermarkTime time.Time) {
 
 			if len(resultData) > 0 {
 				callback := tw.callback
+				tw.deliverMu.Lock()
 				tw.mu.Unlock()
 				verifhook.Yield("tumbling.trigger.unlocked")
 				if callback != nil {
 					callback(resultData)
 				}
 				tw.sendResult(resultData)
+				tw.deliverMu.Unlock()
 				verifhook.Yield("tumbling.trigger.relock")
 				tw.mu.Lock()
 			}
@@ -614,11 +621,14 @@ func (tw *TumblingWindow) handleLateData(eventTime time.Time, allowedLateness ti
 			resultData := tw.extractLateUpdateDataLocked(info.slot)
 			if len(resultData) > 0 {
 				callback := tw.callback
+				// wait for a hand-over in progress (the window's first delivery) to finish first
+				tw.deliverMu.Lock()
 				tw.mu.Unlock()
 				if callback != nil {
 					callback(resultData)
 				}
 				tw.sendResult(resultData)
+				tw.deliverMu.Unlock()
 				tw.mu.Lock()
 			}
 			return
